@@ -86,4 +86,13 @@ CHECKS = {
         quick=dict(stages=[st(4000, timeout=900)]),
         thorough=dict(stages=[st(30000, shards=16, timeout=3000)]),
     ),
+    "C11": dict(
+        pkg="c11", level="exploration",
+        rule="rapid-generated StorageRouting cases (k log-uniform 1..1e6, m in [0.3,1] and exactly 1, dead storage 0 or >0, bias 0 or 0<bias with 2*k*bias<=dt, area 0 or >0 with rain/evaporation, initial storage 0 or >0, series 1..60 with zero-flow spells), Muskingum cases inside 2KX<=dt<=2K(1-X) (steady flows with equilibrium initial state; finite events from rest with a zero tail), Lag cases (lag 0..12, series shorter and longer than the lag, carried buffer, series fed in 1-3 calls); "
+             "oracles: per-step water balance S_t - S_{t-1} = (I+L-Q-E)*dt with E as the model defines it (1e-9 relative + the solver's 1e-3 m^3), Q,S >= 0, S = k*Q^m + dead within 2x the solver tolerance (horizontal or vertical distance to the curve), steady flow unchanged, event volume = inflow + lateral volume (geometric remainder of the recession added), outflow = buffer ++ inflow delayed by lag, final buffer = last lag inflows. "
+             "Non-trivial = StorageRouting run entering >= 2 exit paths / Muskingum with lateral > 0 / Lag with lag > (segment) length; distinct = distinct case",
+        assumptions=["net evaporation is taken exactly as the model defines it (unit of area undocumented)", "Muskingum remainder uses the textbook coefficients computed in the check"],
+        quick=dict(stages=[st(4000, timeout=900)]),
+        thorough=dict(stages=[st(40000, shards=16, timeout=3000)]),
+    ),
 }
